@@ -34,11 +34,28 @@ def generate(L):
     first_body = loop[prefixes[0][0]:first_end]
     if not re.search(r"cur_meta\.author\s*=\s*rest\.to_string\(\)", first_body):
         raise L.GenError("parser: first metadata prefix does not store `rest.to_string()` into cur_meta.author")
+    filename_prefix = None
+    skipped = []
     for k in range(len(prefixes)):
         end = prefixes[k + 1][0] if k + 1 < len(prefixes) else loop.find("line ==", prefixes[k][0])
         body = loop[prefixes[k][0]:end]
         if "continue;" not in body:
             raise L.GenError("parser: a metadata branch does not `continue`")
+        if k == 0:
+            continue
+        if "cur_meta.filename" in body:
+            # the path of the file in the originating commit, through utils::unescape_git_path, nothing else
+            if not re.search(r"cur_meta\.filename\s*=\s*unescape_git_path\(rest\);", body) or filename_prefix is not None:
+                raise L.GenError("parser: the filename branch is not `cur_meta.filename = unescape_git_path(rest);`")
+            if k != len(prefixes) - 1:
+                raise L.GenError("parser: the filename branch is not the last metadata prefix")
+            filename_prefix = prefixes[k][1]
+        else:
+            skipped.append(prefixes[k][1])
+    if filename_prefix is None:
+        raise L.GenError("parser: no branch reads `filename` (the path of the file in the originating commit)")
+    if loop.count("orig_path: cur_meta.filename.clone()") != 2:
+        raise L.GenError("parser: both hunk pushes must carry `orig_path: cur_meta.filename.clone()`")
     m_b = re.search(r"if\s+line\s*==\s*" + L.STR_LIT + r"\s*\{\s*cur_meta\.boundary\s*=\s*true;\s*continue;", loop)
     if not m_b or m_b.start() < prefixes[-1][0]:
         raise L.GenError("parser: `line == \"boundary\"` branch not found after the metadata prefixes")
@@ -51,11 +68,16 @@ def generate(L):
     for n in need:
         if n not in hdr:
             raise L.GenError(f"parser: header handling changed, `{n}` not found")
-    reads_filename = "filename" in loop
+    reads_filename = True
+    up = L.find_fn(L.read_src("src/utils.rs"), "unescape_git_path", "src/utils.rs")
+    if "if !path.starts_with('\"') || !path.ends_with('\"') {" not in up or "return path.to_string();" not in up \
+            or "&path[1..path.len() - 1]" not in up:
+        raise L.GenError("utils::unescape_git_path: the unquoted-path branch / slice changed")
 
     ov = L.find_fn(src, "overlay_ai_authorship", rel)
-    uses_requested = bool(re.search(
-        r"authorship_log\.get_line_attribution\(\s*repo,\s*file_path,\s*orig_line_num,", ov))
+    LOOKUP = r"let lookup_path = if hunk\.orig_path\.is_empty\(\) \{\s*file_path\s*\} else \{\s*hunk\.orig_path\.as_str\(\)\s*\};"
+    uses_hunk = bool(re.search(LOOKUP, ov)) and bool(re.search(
+        r"authorship_log\.get_line_attribution\(\s*repo,\s*lookup_path,\s*orig_line_num,", ov))
     m_u = re.search(r"line_authors\.insert\(line_num,\s*" + L.STR_LIT + r"\.to_string\(\)\)", ov)
     if not m_u:
         raise L.GenError("overlay: the mark_unknown literal was not found")
@@ -63,8 +85,8 @@ def generate(L):
     if "CheckpointKind::Human.to_str()" not in ov:
         raise L.GenError("overlay: return_human_authors_as_human no longer uses CheckpointKind::Human.to_str()")
     pop = L.find_fn(src, "populate_ai_human_authors", rel)
-    split_uses_requested = bool(re.search(
-        r"authorship_log\.get_line_attribution\(\s*self,\s*file_path,\s*orig_line_num,", pop))
+    split_uses_hunk = bool(re.search(LOOKUP, pop)) and bool(re.search(
+        r"authorship_log\.get_line_attribution\(\s*self,\s*lookup_path,\s*orig_line_num,", pop))
 
     rel2 = "src/authorship/working_log.rs"
     wl = L.read_src(rel2)
@@ -84,17 +106,28 @@ def generate(L):
         "prompt_records.contains_key(*author)", "ai_lines.sort_by_key(|(line, _)| *line)",
         "*prompt_id == current_prompt_id && *line == range_end + 1", 'format!("{}-{}", range_start, range_end)'])
 
+    plr = L.find_fn(src, "parse_line_range", rel)
+    prep = L.find_fn(src, "prepare_blame_request", rel)
+    open_end = all(x in plr for x in [
+        "range_str.find(',')", "end_str.strip_prefix('+')", "count_str.parse::<u32>()", "count > 0",
+        "start.checked_add(count - 1)", "end_str.parse::<u32>()", "return Some((line, LINE_RANGE_END_OF_FILE));"]) \
+        and bool(re.search(r"const LINE_RANGE_END_OF_FILE: u32 = u32::MAX;", L.strip_comments(src))) \
+        and all(x in prep for x in ["vec![(1, total_lines)]", "if end == LINE_RANGE_END_OF_FILE {", "(start, total_lines)",
+                                    "*start == 0 || *end == 0 || start > end || *end > total_lines"])
+
     return "\n".join([
         "Definition content_prefix : N := " + str(content_prefix[0]) + ".",
         "Definition author_prefix : list N := " + L.coq_str(prefixes[0][1]) + ".",
-        "Definition skipped_prefixes : list (list N) := " + L.coq_list([L.coq_str(p) for _, p in prefixes[1:]]) + ".",
+        "Definition skipped_prefixes : list (list N) := " + L.coq_list([L.coq_str(p) for p in skipped]) + ".",
+        "Definition filename_prefix : list N := " + L.coq_str(filename_prefix) + ".",
         "Definition boundary_word : list N := " + L.coq_str(boundary_word) + ".",
         "Definition unknown_word : list N := " + L.coq_str(unknown_word) + ".",
         "Definition human_word : list N := " + L.coq_str(human_word) + ".",
         "Definition parser_reads_filename : bool := " + L.coq_bool(reads_filename) + ".",
-        "Definition overlay_uses_requested_path : bool := " + L.coq_bool(uses_requested and split_uses_requested) + ".",
+        "Definition overlay_uses_hunk_path : bool := " + L.coq_bool(uses_hunk and split_uses_hunk) + ".",
         "Definition attribution_first_file_match : bool := " + L.coq_bool(first_att) + ".",
         "Definition attribution_entries_reversed : bool := " + L.coq_bool(reverse) + ".",
         "Definition attribution_own_prompts_first : bool := " + L.coq_bool(own_first) + ".",
         "Definition json_grouping_shape : bool := " + L.coq_bool(json_shape) + ".",
+        "Definition line_range_open_end : bool := " + L.coq_bool(open_end) + ".",
     ])
